@@ -87,6 +87,7 @@ def lean_check(prop, cfg, tier):
     module = cfg["lean"]
     res = dict(ok=True, obligations=0, discharged=0, broken=[], axioms=[], theorems=[], log="")
     with Lock("lake"):
+        run([sys.executable, os.path.join(ROOT, "checks", "gen_main.py")], cwd=ROOT)
         rc, out = run(["lake", "build", module, "gmxdriver"], cwd=LEAN, timeout=3600)
     res["log"] = out[-6000:]
     props_file = os.path.join(LEAN, *module.split(".")) + ".lean"
